@@ -167,3 +167,40 @@ func TestStreamAuth(t *testing.T) {
 	}
 	out.write(t, "auth")
 }
+
+// TestStreamTm generates the Tendermint light-client correspondence stream (C07, C14).
+func TestStreamTm(t *testing.T) {
+	seed := uint64(envInt("VERIF_SEED", 1))
+	cases := envInt("VERIF_CASES", 6)
+	nops := envInt("VERIF_OPS", 40)
+	out := &streamOut{stats: map[string]int{}}
+	w := NewWorld(t, 1)
+	for i := 0; i < cases; i++ {
+		r := &Rng{s: seed*1000003 + uint64(i)*7919 + 53}
+		g := &TmGen{w: w, r: r, stats: map[string]int{}}
+		g.Run(nops, i)
+		for k, v := range g.stats {
+			out.stats[k] += v
+		}
+	}
+	out.add(w, map[string]int{})
+	out.cases = cases
+	out.write(t, "tm")
+}
+
+// TestStreamStatus generates the client-status correspondence stream (C14).
+func TestStreamStatus(t *testing.T) {
+	seed := uint64(envInt("VERIF_SEED", 1))
+	cases := envInt("VERIF_CASES", 4)
+	nops := envInt("VERIF_OPS", 30)
+	out := &streamOut{stats: map[string]int{}}
+	for i := 0; i < cases; i++ {
+		r := &Rng{s: seed*1000003 + uint64(i)*7919 + 61}
+		w := NewWorld(t, 2)
+		g := &StatusGen{w: w, r: r, stats: map[string]int{}}
+		g.Run(nops, i)
+		g.RunExpiredPackets()
+		out.add(w, g.stats)
+	}
+	out.write(t, "status")
+}
